@@ -35,7 +35,8 @@ Definition init : state :=
 
 (* result codes of one datagram: 0 processed, 1 dropped before decryption (not a 1-RTT packet /
    header protection sample missing), 2 decrypt failed, 3 duplicate, 4 too old, 5 connection already
-   closed, 6 decrypt failed and the connection is closed with AEAD_LIMIT_REACHED *)
+   closed, 6 decrypt failed and the connection is closed with AEAD_LIMIT_REACHED (8, implementation
+   only: closed with any other connection error) *)
 Section Rx.
   Variable D : Type.                                                   (* datagrams *)
   Variable unprot : D -> option (N * nat * list N * list N).           (* truncated pn, pn len, header, ciphertext *)
@@ -53,18 +54,22 @@ Section Rx.
     | None => (s, (1%Z, None))
     | Some (tpn, n, hdr, ct) =>
         let pn := expand (largest s) tpn n in
-        (* key_set.decrypt_packet: decrypt first and count the failure; its AEAD_LIMIT_REACHED error
-           is returned by validate_and_decrypt_packet only after the duplicate check *)
-        let dec := aead_open pn hdr ct in
-        let s1 := match dec with Some _ => s | None => bump s false end in
-        match sw_check (window s) pn with
-        | WDup => (s1, (3%Z, None))
-        | WOld => (s1, (4%Z, None))
-        | WOk =>
-            match dec with
-            | None =>
-                if integrity_limit <=? failures s + 1 then (bump s true, (6%Z, None)) else (s1, (2%Z, None))
-            | Some p =>
+        (* key_set.decrypt_packet: decrypt first, count a failure, AEAD_LIMIT_REACHED once the counter
+           reaches the limit; validate_and_decrypt_packet then checks for duplicates, but a connection
+           error of decrypt_packet is returned from the duplicate branch as well *)
+        match aead_open pn hdr ct with
+        | None =>
+            if integrity_limit <=? failures s + 1 then (bump s true, (6%Z, None)) else
+            match sw_check (window s) pn with
+            | WDup => (bump s false, (3%Z, None))
+            | WOld => (bump s false, (4%Z, None))
+            | WOk => (bump s false, (2%Z, None))
+            end
+        | Some p =>
+            match sw_check (window s) pn with
+            | WDup => (s, (3%Z, None))
+            | WOld => (s, (4%Z, None))
+            | WOk =>
                 (* handle_cleartext_payload, then on_processed_packet: ack manager + window insert *)
                 ({| window := pn :: window s; largest := N.max (largest s) pn;
                     delivered := delivered s ++ [(pn, p)]; acked := pn :: acked s;
@@ -156,10 +161,7 @@ Definition reset_judge (c o : list Z) : bool :=
      3 k newlen             : packet #k truncated
      4 k j cut cut2         : first cut (>= 1) bytes of #k followed by #j from cut2 on
      5 len b1..b_len        : arbitrary bytes
-   (the generator keeps every garbled datagram different from every sealed packet; garbled
-   datagrams whose decoded packet number is not determined by the case -- pn bytes, sample or the
-   pn-length bits touched, splices, arbitrary bytes -- only occur in cases whose integrity limit is
-   out of reach)
+   (the generator keeps every garbled datagram different from every sealed packet)
    output per delivery: unmodified copy: result code, and when processed (0): pn, payload length, payload;
                         anything else: 1 when dropped, 6 when dropped and the connection is closed
                         with AEAD_LIMIT_REACHED, 5 when the connection was closed before, full dump
@@ -295,6 +297,7 @@ Fixpoint judge_items (lim : N) (proc : list N) (nf : N) (cl : bool) (its : list 
           && judge_items lim (pn :: proc) nf cl t (skipn k o')
       | 5%Z :: o' => cl && judge_items lim proc nf cl t o'
       | 6%Z :: _ => false
+      | 8%Z :: _ => false
       | code :: o' =>
           negb (code =? 0)%Z && negb cl && (match max_list proc with None => false | Some m => pn <=? m end)
           && judge_items lim proc nf cl t o'
